@@ -12,6 +12,63 @@ def _h(a):
     return hashlib.sha1(a.tobytes()).hexdigest()[:12] + f":{a.shape}"
 
 
+INACCURATE_MSG = "Solution may be inaccurate. Try another solver, adjusting the solver settings, or solve with verbose=True for more information."
+_EMITTERS = {}
+
+
+def _in_elexsolver_frame(src):
+    """Compile `src` (defining f) as if it were code of elexsolver/QuantileRegressionSolver.py: warnings are attributed by
+    file / module of the issuing frame, and the solver module is where cvxpy is called from in a real run."""
+    import elexsolver.QuantileRegressionSolver as qrs
+
+    g = {"__name__": qrs.__name__, "__file__": qrs.__file__}
+    exec(compile(src, qrs.__file__, "exec"), g)
+    return g["f"]
+
+
+def emit_cvxpy_inaccuracy_warning():
+    """Issue cvxpy's 'Solution may be inaccurate' UserWarning the way the *installed* cvxpy issues it during
+    QuantileRegressionSolver._fit_with_regularization: recent cvxpy (utilities.warn) attributes it to the first frame
+    outside the cvxpy package, i.e. to elexsolver's module; older releases used a plain warnings.warn inside
+    cvxpy/problems/problem.py.  genuine_cvxpy_inaccuracy_attribution() validates this against a real solve."""
+    if "emit" not in _EMITTERS:
+        try:
+            from cvxpy.utilities.warn import warn as cvxpy_warn  # noqa: F401
+
+            f = _in_elexsolver_frame("def f(warn, msg):\n    warn(msg)\n")
+            _EMITTERS["emit"] = lambda: f(cvxpy_warn, INACCURATE_MSG)
+        except ImportError:
+            _EMITTERS["emit"] = lambda: warnings.warn_explicit(INACCURATE_MSG, UserWarning, filename="cvxpy/problems/problem.py", lineno=1, module="cvxpy.problems.problem", registry={})
+    _EMITTERS["emit"]()
+
+
+def genuine_cvxpy_inaccuracy_attribution():
+    """(filename of a genuine inaccuracy warning raised by a real, deliberately under-converged cvxpy solve called from an
+    elexsolver-like frame, filename of the seam's emission) - the two must agree."""
+    src = (
+        "def f(cp, np):\n"
+        "    x = cp.Variable(3)\n"
+        "    A = np.random.RandomState(0).randn(10, 3); b = np.random.RandomState(1).randn(10)\n"
+        "    prob = cp.Problem(cp.Minimize(cp.sum(cp.abs(A @ x - b)) + 0.1 * cp.pnorm(x, 2) ** 2))\n"
+        "    prob.solve(solver=cp.CLARABEL, tol_gap_abs=1e-40, tol_gap_rel=1e-40, tol_feas=1e-40, tol_infeas_abs=1e-40, tol_infeas_rel=1e-40, tol_ktratio=1e-40, max_iter=60)\n"
+        "    return prob.status\n"
+    )
+    import cvxpy as cp
+    import numpy as np
+
+    f = _in_elexsolver_frame(src)
+    with warnings.catch_warnings(record=True) as w1:
+        warnings.simplefilter("always")
+        status = f(cp, np)
+    genuine = [x for x in w1 if "inaccurate" in str(x.message)]
+    with warnings.catch_warnings(record=True) as w2:
+        warnings.simplefilter("always")
+        emit_cvxpy_inaccuracy_warning()
+    if status != "optimal_inaccurate" or not genuine or not w2:
+        raise RuntimeError(f"could not provoke a genuine cvxpy inaccuracy warning (status {status})")
+    return genuine[0].filename, w2[0].filename, genuine[0].category.__name__, w2[0].category.__name__
+
+
 class SolverSeam:
     """Wraps QuantileRegressionSolver.fit and its per-quantile solves (_fit / _fit_with_regularization).
 
@@ -64,15 +121,8 @@ class SolverSeam:
                     seam._pending_retry = {"solver": id(solver), "position": seam.position}
                     raise cvxpy.error.SolverError("injected: solver failed")
                 seam._pending_retry = {"solver": id(solver), "position": seam.position}
-                # exactly what cvxpy does for an inaccurate solution: a UserWarning issued from its own module
-                warnings.warn_explicit(
-                    "Solution may be inaccurate. Try another solver, adjusting the solver settings, or solve with verbose=True for more information.",
-                    UserWarning,
-                    filename="cvxpy/problems/problem.py",
-                    lineno=1,
-                    module="cvxpy.problems.problem",
-                    registry={},
-                )
+                # exactly what the installed cvxpy does for an inaccurate solution (see emit_cvxpy_inaccuracy_warning)
+                emit_cvxpy_inaccuracy_warning()
                 # not turned into an exception: the solve goes on as if nothing happened
                 seam._pending_retry = None
                 rec["warning_not_raised"] = True
